@@ -337,12 +337,12 @@ def write_replay(prop, rec, directory=None):
 
 
 def load_known_findings(prop):
+    out = []
     path = os.path.join(VERIF_DIR, 'known_findings.json')
-    if not os.path.exists(path):
-        return []
-    with open(path) as f:
-        data = json.load(f)
-    return [e for e in data.get('findings', []) if e.get('property') == prop]
+    if os.path.exists(path):
+        with open(path) as f:
+            out.extend(json.load(f).get('findings', []))
+    return [e for e in out if e.get('property') == prop]
 
 
 def write_evidence(prop, tier, seed, level, col, wall_s, violations, rule,
